@@ -4,7 +4,7 @@
     [DSub s] = subset encoding, [DVec x] = integer-count / binary-indicator / real-contribution encoding;
     [res_eq] = same shape and equal rationals; norms are represented by their squares). *)
 From Coq Require Import PrimFloat Permutation.
-From PV Require Import Lib.Common Lib.FloatK Model.C05_Latent Proofs.C05_Latent.
+From PV Require Import Lib.Common Lib.FloatK Model.C05_Latent Model.C05_Factory Proofs.C05_Latent Proofs.C05_Factory.
 Local Open Scope Q_scope.
 
 (** Every family's subset formula is its contribution-vector formula ("the definition") evaluated at
@@ -40,9 +40,9 @@ Theorem C05_family_subset_repeat_refuted :
 Proof. exact fam_subset_repeat_differs. Qed.
 Print Assumptions C05_family_subset_repeat_refuted.
 
-(** Values do not depend on the order in which a subset is listed (all subset classes except the genotype builder,
-    whose sort is covered by the correspondence only). *)
-Theorem C05_order_invariant : forall n fd s s', not_gb fd -> Permutation s s' -> res_eq (latent n fd (DSub s)) (latent n fd (DSub s')).
+(** Values do not depend on the order in which a subset is listed — every subset class (linear, quadratic, L1,
+    family, allele-frequency incl. the binary64 thresholds, optimal population value, genotype builder). *)
+Theorem C05_order_invariant : forall n fd s s', Permutation s s' -> res_eq (latent n fd (DSub s)) (latent n fd (DSub s')).
 Proof. exact latent_order_invariant. Qed.
 Print Assumptions C05_order_invariant.
 
@@ -96,16 +96,36 @@ Theorem C05_pau_tmajor_refuted : exists c N tfv, (1 <= N <= 1024)%Z /\ (0 <= c <
 Proof. exact pau_tmajor_refuted. Qed.
 Print Assumptions C05_pau_tmajor_refuted.
 
+(** factory data follow the population's taxon order: for the population re-ordered by any index list [pi]
+    (new taxon i = old taxon pi_i) the breeding values and the haplotype block values are the re-ordered ones *)
+Theorem C05_gebv_taxon_order : forall pi hap u beta n p t, (forall i, In i pi -> (i < n)%nat) ->
+  gebv_def (reorder_taxa pi hap) u beta (length pi) p t = map (fun k => nth k (gebv_def hap u beta n p t) []) pi.
+Proof. exact gebv_reorder. Qed.
+Print Assumptions C05_gebv_taxon_order.
+Theorem C05_haplotype_values_taxon_order : forall pi hap u bounds n t, (forall i, In i pi -> (i < n)%nat) ->
+  haploval (reorder_taxa pi hap) u bounds (length pi) t = map (fun Hp => map (fun k => nth k Hp []) pi) (haploval hap u bounds n t).
+Proof. exact haploval_reorder. Qed.
+Print Assumptions C05_haplotype_values_taxon_order.
+(** the optimal haploid value of a cross (ploidy * sum over blocks of the best block value over parents and phases)
+    is the optimal population value of the set of its parents *)
+Theorem C05_ohv_is_opv_of_parents : forall H nb nt parents, Forall2 Qeq (map Qopp (ohv_row H nb nt parents)) (opv_subset H nb nt parents).
+Proof. exact ohv_is_opv. Qed.
+Print Assumptions C05_ohv_is_opv_of_parents.
+(** the cross maps list every pair of distinct parents (resp. every pair) exactly as index pairs a < b (resp. a <= b) *)
+Theorem C05_cross_map_pairs : forall n a b, (In [a; b] (pairs_unique n) <-> (a < b < n)%nat) /\ (In [a; b] (pairs_any n) <-> (a <= b < n)%nat).
+Proof. intros n a b. split; [apply pairs_unique_spec | apply pairs_any_spec]. Qed.
+Print Assumptions C05_cross_map_pairs.
+
 (** non-vacuity: concrete values meeting the hypotheses used above *)
 Example C05_hyps_satisfiable :
   has_vec (FOcs 1 [[1]; [2]; [3]] [[1; 1#2; 0]; [0; 1; 1#4]; [0; 0; 1]]) = true /\ in_range 3 [2; 0]%nat /\ [2; 0]%nat <> [] /\ NoDup [2; 0]%nat
-  /\ fam_ok (FFam 1 [[1]; [2]; [3]] [5; 3; 5]%Z) [2; 0]%nat /\ not_gb (FMgr [[1]]) /\ Permutation [2; 0]%nat [0; 2]%nat
+  /\ fam_ok (FFam 1 [[1]; [2]; [3]] [5; 3; 5]%Z) [2; 0]%nat /\ Permutation [2; 0]%nat [0; 2]%nat
   /\ guard_eps <= Qabs' (qsum [1#4; 1#2]) /\ guard_eps <= Qabs' (qsum (map (Qmult 3) [1#4; 1#2]))
   /\ (1 <= popsize 2 [0; 1; 2]%nat <= 1024)%Z /\ size_ok (popsize 2 [0; 1; 2]%nat) = true
   /\ geno_ok 2 [[2; 0]; [1; 1]; [2; 0]]%Z [0; 1; 2]%nat 2 /\ targets_het [[1#2]; [1#4]] 2 1.
 Proof.
   split; [reflexivity|]. split; [intros i [<-|[<-|[]]]; lia|]. split; [discriminate|]. split; [repeat constructor; cbn; intuition lia|].
-  split; [cbn; repeat constructor; cbn; intuition lia|]. split; [exact I|]. split; [apply perm_swap|].
+  split; [cbn; repeat constructor; cbn; intuition lia|]. split; [apply perm_swap|].
   split; [apply Qle_bool_iff; vm_compute; reflexivity|]. split; [apply Qle_bool_iff; vm_compute; reflexivity|].
   split; [vm_compute; split; discriminate|]. split; [vm_compute; reflexivity|].
   split.
